@@ -37,7 +37,8 @@ def run(tier, seed, t0):
             o += 1
         # large n: pairwise covering of (k, layout, ks layout), (5,6) only once (its key-switching key is 0.8 GB)
         big = [(500, 1, 2, 10, 8, 2), (500, 2, 3, 7, 2, 1), (630, 1, 3, 7, 8, 2), (630, 2, 4, 8, 2, 1), (1024, 1, 4, 8, 8, 2), (1024, 2, 2, 10, 2, 1),
-               (1025, 1, 16, 2, 2, 1), (1025, 2, 3, 7, 8, 2), (1100, 1, 2, 10, 8, 2), (1100, 2, 3, 7, 2, 1), (1100, 1, 16, 2, 2, 1), (500, 1, 3, 7, 5, 6), (1023, 1, 3, 7, 2, 1), (1024, 1, 3, 7, 8, 2), (2048, 1, 2, 10, 2, 1)]
+               (1025, 1, 16, 2, 2, 1), (1025, 2, 3, 7, 8, 2), (1100, 1, 2, 10, 8, 2), (1100, 2, 3, 7, 2, 1), (1100, 1, 16, 2, 2, 1), (500, 1, 3, 7, 5, 6), (1023, 1, 3, 7, 2, 1), (1024, 1, 3, 7, 8, 2), (2048, 1, 2, 10, 2, 1),
+               (3, 2, 1, 16, 2, 1), (7, 1, 1, 8, 8, 2), (9, 2, 1, 4, 2, 1), (8, 2, 1, 16, 8, 2), (500, 2, 1, 16, 2, 1)]
         for i, (n, k, l, bg, t, bb) in enumerate(big):
             jobs.append(life("asan", vbuild.BACKENDS[i % 5], n, k, l, bg, t, bb, i, seed, heavyio=0 if (t, bb) == (5, 6) else 1, weight=4 if (t, bb) == (5, 6) else 2, timeout=7200))
         for i, (n, k) in enumerate(itertools.product(NS_SMALL, (1, 2))):
@@ -48,7 +49,8 @@ def run(tier, seed, t0):
     else:
         quick = [(1, 1, 2, 10, 8, 2), (3, 1, 3, 7, 8, 2), (3, 2, 2, 10, 2, 1), (7, 1, 4, 8, 5, 6), (8, 2, 3, 7, 8, 2), (9, 1, 16, 2, 2, 1), (9, 2, 4, 8, 8, 2),
                  (7, 1, 2, 10, 8, 2), (500, 1, 2, 10, 8, 2), (630, 1, 3, 7, 8, 2), (1025, 1, 3, 7, 2, 1), (1100, 1, 2, 10, 2, 1),
-                 (1024, 1, 2, 10, 2, 1), (1023, 1, 3, 7, 2, 1), (1024, 2, 3, 7, 2, 1)]      # n == N and its neighbours (boundaries of the input dimension against the ring degree)
+                 (1024, 1, 2, 10, 2, 1), (1023, 1, 3, 7, 2, 1), (1024, 2, 3, 7, 2, 1),
+                 (3, 2, 1, 16, 2, 1), (7, 1, 1, 8, 8, 2), (9, 2, 1, 4, 2, 1)]      # n == N and its neighbours; a single decomposition level (l = 1 < k + 1)
         for i, (n, k, l, bg, t, bb) in enumerate(quick):
             jobs.append(life("asan", vbuild.BACKENDS[i % 5], n, k, l, bg, t, bb, i, seed, weight=2 if n > 100 else 1))
         for i, (n, k) in enumerate([(3, 1), (7, 2), (9, 1)]):
